@@ -110,7 +110,7 @@ class LArr(ndarray):
         f = self.elem
         return LArr(self._shape, dt, lambda idx: cast_elem(_strip(f(idx)), dt))
 
-    def tobytes(self):
+    def tobytes(self, order='C'):
         return snp.BytesToken(self.copy(), self.dtype)
 
     def ravel(self):
